@@ -86,6 +86,23 @@ fn enumerate(ctx: &mut Ctx) {
                     break;
                 }
             }
+            // Hayson spells non-finite magnitudes as strings next to the same `unit` member: the unit is kept there too
+            // (Zinc has no spelling for a non-finite number with a unit, so this is asked of Hayson only)
+            for m in [f64::INFINITY, f64::NEG_INFINITY, f64::NAN] {
+                ctx.rec.evals += 1;
+                let rv = RVal::Num(m.to_bits(), Some(u.ids.clone()));
+                let hv = build(&rv);
+                let r = guarded(|| serde_json::to_string(&hv).map_err(|e| e.to_string()).and_then(|t| serde_json::from_str::<Value>(&t).map(|v| (t.clone(), v)).map_err(|e| format!("{e} on {t}"))));
+                let v = match r {
+                    Ok(Ok((t, b))) => diff_verdict("C15:hayson:non-finite", &rv, &project(&b), &t, &mut ctx.rec),
+                    Ok(Err(e)) => Verdict::fail(format!("C15:hayson:non-finite:error:{id}"), e),
+                    Err(p) => Verdict::fail(format!("C15:hayson:non-finite:panic:{id}"), p.msg),
+                };
+                if v.is_fail() {
+                    ctx.report("unit-codec-hayson", v, json!({"static": name, "id": id, "magnitude": format!("{m}")}));
+                    break;
+                }
+            }
         }
     }
     ctx.extra.insert("unit_id_pairs".into(), json!(pairs));
@@ -218,7 +235,7 @@ fn check_non_id(c: &NonId, rec: &mut Rec) -> Verdict {
 }
 
 pub fn run(ctx: &mut Ctx) {
-    ctx.rule("enumerated exhaustively: every `pub static ref ..: Unit` of units_generated.rs (listed by the harness build script, independent of the UNITS map) x every identifier: get_unit(id) returns that very unit with the ids/dimension/scale/offset/quantity units.txt gives; x 8 magnitudes {0,1,-1,0.5,-273.15,1e-7,1e21,12345.678}: Zinc and Hayson round trip, and decoding of a foreign spelling by that identifier (Zinc suffix, Hayson unit member); generated: near-miss and random strings that are no unit's identifier must give None; non-trivial: every (unit, id) pair / every non-identifier; distinct by string");
+    ctx.rule("enumerated exhaustively: every `pub static ref ..: Unit` of units_generated.rs (listed by the harness build script, independent of the UNITS map) x every identifier: get_unit(id) returns that very unit with the ids/dimension/scale/offset/quantity units.txt gives; x 8 magnitudes {0,1,-1,0.5,-273.15,1e-7,1e21,12345.678}: Zinc and Hayson round trip (Hayson also with INF, -INF and NaN, which it spells as strings next to the unit), and decoding of a foreign spelling by that identifier (Zinc suffix, Hayson unit member); generated: near-miss and random strings that are no unit's identifier must give None; non-trivial: every (unit, id) pair / every non-identifier; distinct by string");
     ctx.assume("unit-gen/units.txt is the database; an identifier shared by two database units is not asserted to resolve to either");
     enumerate(ctx);
     ctx.run_sub::<NonId>("non-identifier", ctx.tier.pick(80_000, 1_600_000), &non_ids, &check_non_id);
@@ -237,6 +254,22 @@ pub fn replay(kind: &str, case: &J, rec: &mut Rec) -> Verdict {
             }
             let m = case["magnitude"].as_f64().unwrap_or(1.0);
             unit_codecs(&RVal::Num(m.to_bits(), Some(u.ids.clone())), id, rec)
+        }
+        "unit-codec-hayson" => {
+            let name = case["static"].as_str().unwrap_or("");
+            let Some((_, u)) = unit_table().iter().find(|(n, _)| *n == name) else { return Verdict::fail("infra:bad-replay", "unknown static") };
+            let m: f64 = match case["magnitude"].as_str().unwrap_or("") {
+                "inf" => f64::INFINITY,
+                "-inf" => f64::NEG_INFINITY,
+                _ => f64::NAN,
+            };
+            let rv = RVal::Num(m.to_bits(), Some(u.ids.clone()));
+            let hv = build(&rv);
+            match guarded(|| serde_json::to_string(&hv).map_err(|e| e.to_string()).and_then(|t| serde_json::from_str::<Value>(&t).map(|v| (t.clone(), v)).map_err(|e| format!("{e} on {t}")))) {
+                Ok(Ok((t, b))) => diff_verdict("C15:hayson:non-finite", &rv, &project(&b), &t, rec),
+                Ok(Err(e)) => Verdict::fail("C15:hayson:non-finite:error", e),
+                Err(p) => Verdict::fail("C15:hayson:non-finite:panic", p.msg),
+            }
         }
         _ => Verdict::fail("infra:unknown-kind", kind),
     }
